@@ -219,6 +219,11 @@ def c28(tier, seed):
                 for (r2, k2) in (("LT", n), ("LT", 2), ("EQ", 2), ("GT", 0), ("EQ", 1)):
                     specs.append((n, [], [(r1, k1, vs_all), (r2, k2, vs_all)]))
             specs.append((n, [[1, 2]], [("GT", 0, vs_all), ("LT", n, vs_all), ("GT", 0, vs_all[:-1])]))
+        # clauses in which a variable occurs twice: with the same sign, and with both signs (always true)
+        for cl in ([1, 1], [1, -1], [-1, 1, 2], [1, 2, -1], [2, -1, -1], [-2, 1, 2, -1], [1, -2, -1, 3], [3, -3], [-3, 3, 1]):
+            nn = max(abs(x) for x in cl)
+            specs.append((nn, [cl], []))
+            specs.append((nn, [cl, [-nn]], [("LT", nn, list(range(1, nn + 1)))]))
         m = 30 if tier == "quick" else 300
         for _ in range(m):
             n = rng.randrange(2, 6)
